@@ -145,6 +145,8 @@ def pickVerdict (c : UCmp) (v : Version) (src limit : Nat) (S0 : List Table) : S
 /-- does the model's `computeCompaction` leave what the real one left (`real = none`: `bestLevel = -1`)? -/
 def scoreVerdict (v : Version) (trigger : Nat) (limits : List Nat) (real : Option Nat) (realGE1 : Bool) : String :=
   let o : Score.ScoreOpts := ⟨trigger, fun l => limits.getD l 0⟩
+  -- the hypothesis `ScoreOpts.Pos` of the theorems, on the real option getters
+  if trigger == 0 || limits.any (· == 0) || limits.length != v.levels.length then "illegal nonpositive-option" else
   let ge1 := Score.scoreGE1 o v
   let lvl := (Score.computeCompaction o v).map (·.1)
   if ge1 == realGE1 && (lvl == real || Score.nearTie o v) then "ok"
